@@ -86,25 +86,72 @@ Definition sent_after_issue (tr : list ev) : Prop :=
   forall pre id t post, tr = pre ++ ESent id t :: post -> id <> 0 ->
     exists n, In (EIssue t id n) pre.
 
+(* THE VALUE.  A callback that is not the timeout / NoService one receives exactly the decoding
+   (handleResponse: [decode]) of the fields (ResponseEx / the raw message: [wire_of]) of the
+   response that completed it - the first response carrying the request's id since the issue.
+   In particular (C01_decode_exact) it is nil only when that response names no type, an
+   all-default message decodes to a non-nil value, a remote error comes without a message. *)
+Definition reply_class (c : cls) : bool :=
+  match c with RTimeout | RNoService => false | _ => true end.
+
+Definition value_exact (tr : list ev) : Prop :=
+  forall pre t c post, tr = pre ++ ECb t c :: post -> reply_class c = true ->
+    exists a id n b k,
+      pre = a ++ EIssue t id n :: b ++ [EResp id k] /\ no_resp id b /\ c = decode (wire_of k).
+
+(* no callback ever receives an (err, msg) pair outside the six shapes of [cls] *)
+Definition values_wellformed (tr : list ev) : Prop := forall t, ~ In (ECb t ROther) tr.
+
 (* ---------------------------------------------------------------- executable acceptor *)
+
+Definition ty_eqb (a b : ty) : bool :=
+  match a, b with
+  | TyNone, TyNone | TyHello, TyHello | TyEmpty, TyEmpty | TyUnknown, TyUnknown => true
+  | _, _ => false
+  end.
+
+Definition body_eqb (a b : body) : bool :=
+  match a, b with
+  | BFields i s, BFields j u => (i =? j) && (s =? u)
+  | BJunk, BJunk => true
+  | _, _ => false
+  end.
+
+Definition wire_eqb (a b : wire) : bool :=
+  match a, b with
+  | Wire c e t x, Wire d f u y => (c =? d) && (e =? f) && ty_eqb t u && body_eqb x y
+  end.
+
+Definition pmsg_eqb (a b : pmsg) : bool :=
+  match a, b with
+  | MNil, MNil | MTypedNil, MTypedNil | MEmpty, MEmpty => true
+  | MHello i s, MHello j u => (i =? j) && (s =? u)
+  | _, _ => false
+  end.
 
 Definition kind_eqb (a b : kind) : bool :=
   match a, b with
-  | KOk x, KOk y => x =? y
-  | KNil, KNil => true
-  | KErr x, KErr y => x =? y
-  | KBad x, KBad y => x =? y
+  | KAns c e m, KAns d f n => (c =? d) && (e =? f) && pmsg_eqb m n
+  | KRaw v, KRaw w => wire_eqb v w
+  | _, _ => false
+  end.
+
+Definition val_eqb (a b : val) : bool :=
+  match a, b with
+  | VHello i s, VHello j u => (i =? j) && (s =? u)
+  | VEmpty, VEmpty => true
   | _, _ => false
   end.
 
 Definition cls_eqb (a b : cls) : bool :=
   match a, b with
-  | RReply x, RReply y => x =? y
+  | RReply x, RReply y => val_eqb x y
   | RNil, RNil => true
   | RErr x, RErr y => x =? y
-  | RBad, RBad => true
+  | RBad x, RBad y => Bool.eqb x y
   | RTimeout, RTimeout => true
   | RNoService, RNoService => true
+  | ROther, ROther => true
   | _, _ => false
   end.
 
